@@ -265,6 +265,25 @@ def auto_discharge(prog, cg, site):
     if k.startswith("core:"):
         args = getattr(site, "args", [])
         name = k[5:]
+        if name in ("index", "index_mut") and len(args) == 2:
+            r_ = T.strip_refs(args[1])
+            hi = None
+            if r_[0] == "agg" and "RangeTo::RangeTo" in r_[1]:
+                hi = r_[2][0]
+            if hi is not None:
+                arr = _slice_of(args[0])
+                # hi is the enumerate index of an iteration over the same slice: hi < len
+                h = T.strip_casts(hi)
+                if h[0] == "f" and T.canon(h)[2] == 0 and h[1][0] == "f" and T.canon(h[1])[2] == 0 and h[1][1][0] == "as":
+                    nx = h[1][1][1]
+                    if nx[0] == "call" and nx[1].endswith("::next"):
+                        enum = [x for x in T.walk(nx[2][0]) if x[0] == "call" and x[1].endswith("Iterator::enumerate")]
+                        if enum:
+                            inner = _slice_of(enum[0][2][0])
+                            while inner[0] == "call" and (inner[1] in ("slice::iter", "slice::iter_mut") or inner[1].endswith("into_iter")):
+                                inner = _slice_of(inner[2][0])
+                            if T.canon(inner) == T.canon(arr):
+                                return "D3: ..i with i the enumerate index of an iteration over the same slice (i < len)"
         if name in ("div_ceil", "ilog2", "next_multiple_of", "chunks", "step_by") and args:
             a = args[-1] if name != "ilog2" else args[0]
             v = T.const_val(T.strip_casts(a))
